@@ -252,6 +252,19 @@ let handle () =
      let data = rep nd (fun () -> let k = nnat () in let a = nnat () in let b = nnat () in (k, (a, b))) in
      let (ok, ks) = m_setdata_spec secs data in
      emit (sb ok); List.iter (fun k -> emit (string_of_int (int_of_nat k))) ks
+   | "EXTB" ->
+     let norb = nnat () in
+     let n = nint () in
+     let rdmat () = rep n (fun () -> rep n ngz) in
+     let ma = rdmat () in let mb = rdmat () in
+     let v = nvec () in let basis = nbasis () in
+     List.iter (fun c -> emit (sgz c)) (m_ext_blocks norb ma mb v basis)
+   | "EXTF" ->
+     let norb = nnat () in
+     let n = nint () in
+     let m = rep n (fun () -> rep n ngz) in
+     let v = nvec () in let basis = nbasis () in
+     List.iter (fun c -> emit (sgz c)) (m_ext_full norb m v basis)
    | "INNER" ->
      let norb = nnat () in let x = nvec () in let y = nvec () in
      emit (sgz (m_inner norb x y))
